@@ -75,6 +75,8 @@ class Vals(dict):
             t = t.z
         if isinstance(t, tuple):
             return str(tuple(self.term(x) for x in t))
+        if isinstance(t, symframe.CaseDict):
+            return {k: (None if self.term(nl) else self.term(x)) for k, cond, x, nl in t.entries if self.term(cond)}
         if not z3.is_expr(t):
             return t
         if self.decls is not None:
@@ -400,6 +402,8 @@ def norm_val(x):
         return None if math.isnan(f) else round(f, 9)
     if x is pd.NA or x is pd.NaT:
         return None
+    if isinstance(x, dict):  # a dataframe-level check's failure case: {column: value} of one row
+        return "dict" + str(sorted((str(k), norm_val(v)) for k, v in x.items()))
     if isinstance(x, str) and type(x) is not str:
         return str.__str__(x)
     return str(x)
